@@ -724,6 +724,15 @@ func runC19Dispatch(c *Ctx, rule string) {
 			}
 		}
 	}
+	{
+		var dirHandlers []*ssa.Function
+		for _, fn := range p.Funcs {
+			if fn.Pkg == main && fn.Parent() == nil && handlers[fnName(fn)] == "d" {
+				dirHandlers = append(dirHandlers, fn)
+			}
+		}
+		runListedDir(c, rule, handle, dirHandlers)
+	}
 	per := map[string][]string{}
 	passed := map[string]int{}
 	undecided := ""
@@ -769,6 +778,141 @@ func runC19Dispatch(c *Ctx, rule string) {
 		}
 		c.Sites++
 		c.Check(len(bad) == 0, rule, "main.main", "flag:-"+name, mainFn.Pos(), "handed, as given, to the "+kind[name], uniqJoin(bad, 2))
+	}
+}
+
+// runListedDir: the directory that is listed is the directory the files are opened in. In the directory
+// handler the argument of os.ReadDir and the prefix of every path handed to the per-file handler go through
+// the same lexical normalisations (none today): filepath.Clean / Join / Abs resolve ".." textually, the
+// kernel resolves it after following symbolic links, so for -d link/../dir a cleaned prefix names another
+// directory than the one that was listed — the listed file is not injected and a namesake elsewhere is.
+func runListedDir(c *Ctx, rule string, handle *ssa.Function, dirHandlers []*ssa.Function) {
+	p := c.P
+	isNormaliser := func(nm string) bool {
+		switch nm {
+		case "path/filepath.Clean", "path/filepath.Join", "path/filepath.Abs", "path/filepath.Rel", "path/filepath.EvalSymlinks", "path/filepath.Dir", "path/filepath.Base",
+			"path.Clean", "path.Join", "path.Dir", "path.Base", "strings.ToLower", "strings.ToUpper", "strings.ReplaceAll", "strings.Replace":
+			return true
+		}
+		return false
+	}
+	var normIn func(fn *ssa.Function, depth int, seen map[*ssa.Function]bool) []string
+	normIn = func(fn *ssa.Function, depth int, seen map[*ssa.Function]bool) []string {
+		var out []string
+		if fn == nil || seen[fn] || depth > 3 {
+			return nil
+		}
+		seen[fn] = true
+		for _, b := range fn.Blocks {
+			for _, ins := range b.Instrs {
+				call, ok := ins.(ssa.CallInstruction)
+				if !ok {
+					continue
+				}
+				nm := calleeName(call.Common())
+				if isNormaliser(nm) {
+					out = append(out, nm)
+				}
+				if cal := staticCallee(call.Common()); cal != nil && cal.Pkg != nil && strings.HasPrefix(cal.Pkg.Pkg.Path(), ModPath) {
+					out = append(out, normIn(cal, depth+1, seen)...)
+				}
+			}
+		}
+		return out
+	}
+	for _, fn := range dirHandlers {
+		var listed ssa.Value
+		for _, b := range fn.Blocks {
+			for _, ins := range b.Instrs {
+				if call, ok := ins.(ssa.CallInstruction); ok {
+					switch calleeName(call.Common()) {
+					case "os.ReadDir", "io/ioutil.ReadDir":
+						listed = call.Common().Args[0]
+					}
+				}
+			}
+		}
+		if listed == nil || len(fn.Params) == 0 {
+			continue
+		}
+		var deriv func(v ssa.Value, seen map[ssa.Value]bool) (fromDir bool, norms []string)
+		deriv = func(v ssa.Value, seen map[ssa.Value]bool) (bool, []string) {
+			if seen[v] {
+				return false, nil
+			}
+			seen[v] = true
+			switch x := v.(type) {
+			case *ssa.Parameter:
+				return x == fn.Params[0], nil
+			case *ssa.BinOp:
+				a, na := deriv(x.X, seen)
+				b, nb := deriv(x.Y, seen)
+				return a || b, append(na, nb...)
+			case *ssa.Phi:
+				any := false
+				var ns []string
+				for _, e := range x.Edges {
+					a, n := deriv(e, seen)
+					any = any || a
+					ns = append(ns, n...)
+				}
+				return any, ns
+			case *ssa.Extract:
+				return deriv(x.Tuple, seen)
+			case *ssa.Call:
+				any := false
+				var ns []string
+				for _, a := range x.Call.Args {
+					// variadic arguments (filepath.Join(dir, name)) arrive in a slice
+					elems := variadicElems(a)
+					if len(elems) == 0 {
+						elems = []ssa.Value{a}
+					}
+					for _, e := range elems {
+						f, n := deriv(e, seen)
+						any = any || f
+						ns = append(ns, n...)
+					}
+				}
+				if !any {
+					return false, nil
+				}
+				nm := calleeName(&x.Call)
+				if isNormaliser(nm) {
+					ns = append(ns, nm)
+				} else if cal := staticCallee(&x.Call); cal != nil && cal.Pkg != nil && strings.HasPrefix(cal.Pkg.Pkg.Path(), ModPath) {
+					ns = append(ns, normIn(cal, 0, map[*ssa.Function]bool{})...)
+				}
+				return true, ns
+			}
+			return false, nil
+		}
+		_, listedNorms := deriv(listed, map[ssa.Value]bool{})
+		n := 0
+		var bad []string
+		for _, b := range fn.Blocks {
+			for _, ins := range b.Instrs {
+				call, ok := ins.(ssa.CallInstruction)
+				if !ok || staticCallee(call.Common()) != handle || len(call.Common().Args) == 0 {
+					continue
+				}
+				n++
+				from, norms := deriv(call.Common().Args[0], map[ssa.Value]bool{})
+				if !from {
+					bad = append(bad, p.Pos(instrPos(ins))+": the path handed to the per-file handler does not derive from the directory argument")
+					continue
+				}
+				a, b2 := strings.Join(uniqStrings(listedNorms), ","), strings.Join(uniqStrings(norms), ",")
+				if a != b2 {
+					bad = append(bad, fmt.Sprintf("%s: the directory is listed as given [%s] but the files are opened under a prefix that went through [%s]: for a directory argument such as link/../dir (textual '..' after a symbolic link) the two name different directories, so the listed file is not injected and a namesake in the other directory is rewritten", p.Pos(instrPos(ins)), a, b2))
+				}
+			}
+		}
+		if n == 0 {
+			continue // the per-file handler is reached some other way: judged by the dispatch obligations
+		}
+		c.Sites++
+		c.Check(len(bad) == 0, rule, fnName(fn), "listed-dir", fn.Pos(), fmt.Sprintf("%d hand-over(s): prefix of the path = the directory that was listed", n), uniqJoin(bad, 2))
 	}
 }
 
